@@ -1076,7 +1076,12 @@ func findInvalidSegment(path string) string {
 	if slash == -1 {
 		return ""
 	}
-	path = path[slash+1:]
+	return findInvalidSegmentInSubpath(path[slash+1:])
+}
+
+// If path split on "/" or "\" contains any ".", ".." or "node_modules"
+// segments (including the first segment), return that segment.
+func findInvalidSegmentInSubpath(path string) string {
 	for path != "" {
 		slash := strings.IndexAny(path, "/\\")
 		segment := path
@@ -1163,7 +1168,7 @@ func (r resolverQuery) esmPackageTargetResolve(
 
 		// If subpath split on "/" or "\" contains any ".", ".." or "node_modules"
 		// segments, throw an Invalid Module Specifier error.
-		if invalidSegment := findInvalidSegment(subpath); invalidSegment != "" {
+		if invalidSegment := findInvalidSegmentInSubpath(subpath); invalidSegment != "" {
 			if r.debugLogs != nil {
 				r.debugLogs.addNote(fmt.Sprintf("The path %q is invalid because it contains invalid segment %q", subpath, invalidSegment))
 			}
